@@ -3,32 +3,11 @@ import random
 from ..comp import chp as CH
 
 ID = 'C06'
-P = 'EAO.Properties.C06'
-THEOREMS = [
-    (P, 'EAO.C06.commit_rows_iff_spec', 'for all T, min runtime R, min downtime D (in steps) and initial states: an on/off pattern extends to a 0/1 start assignment satisfying the GENERATED start-definition, min-runtime and min-downtime rows and initial-state bounds iff it satisfies the run-length specification MinUpDown'),
-    (P, 'EAO.C06.commit_rows_iff_spec_bool', 'the same in Boolean form'),
-    (P, 'EAO.C06.spec_iff_automaton', 'MinUpDown holds iff the unit-commitment automaton (state = on?, time in state) accepts, under the constructor guard evaluated in steps'),
-    (P, 'EAO.C06.commit_rows_iff_automaton', 'the two combined: admissible patterns = accepted patterns, unbounded in T'),
-    (P, 'EAO.C06.commitWF_of_ok', 'the well-formedness hypothesis follows from a decidable check the driver evaluates on every request'),
-    (P, 'EAO.C06.capacity_on_off', 'off => virtual dispatch (power + k*heat) = 0; on => between min and max capacity'),
-    (P, 'EAO.C06.capacity_without_on', 'without on-variables: between min and max capacity'),
-    (P, 'EAO.C06.ramp_steps', 'the ramp rows for t >= 1 in terms of the true virtual dispatch of steps t-1 and t'),
-    (P, 'EAO.C06.ramp_steps_on', '|v_t - v_{t-1}| <= ramp when on at both steps (or without on-variables)'),
-    (P, 'EAO.C06.ramp_steps_shutdown', 'a shutdown needs v_{t-1} <= ramp'),
-    (P, 'EAO.C06.ramp_first_step', 'first step relative to the last dispatch, as the code has it'),
-    (P, 'EAO.C06.ramp_first_step_running', 'already running and on: |v_0 - last_dispatch| <= ramp'),
-    (P, 'EAO.C06.first_step_up_ramp_enforced_on_old_witness', 'the witness of the repaired defect F-06a is now rejected'),
-    (P, 'EAO.C06.start_flag', 'every feasible point has start_{t+1} >= on_{t+1} - on_t'),
-    (P, 'EAO.C06.start_flag_first', 'start_0 = on_0 when the unit was off before'),
-    (P, 'EAO.C06.spurious_start_feasible', 'machine-checked witness of known finding F-06b: a start may be flagged without an off-to-on transition'),
-    (P, 'EAO.C06.heat_share', 'heat <= share * power'),
-    (P, 'EAO.C06.fuel_rows', 'fuel-node dispatch = -(power + k*heat)/efficiency - consumption_if_on*on - start_fuel*start'),
-    (P, 'EAO.C06.fuel_rows_of_ok', 'the same from the decidable check evaluated per request'),
-    (P, 'EAO.C06.buildCHP_ok', 'whatever buildCHP returns is the base problem or the assembled CHP problem of the resolved inputs'),
-]
-PARTIAL = ['start/shutdown ramp PROFILES (start_ramp_*/shutdown_ramp_*, _convert_ramp, shutdown variables) and CHPAsset_with_min_load_costs are not in the model: the theorems cover the profile-free case; the statement "start flagged exactly at off-to-on transitions" holds only as start >= transition (known finding F-06b: spurious starts are feasible)']
-COMPONENTS = ['CHP/Plant builder (on the real Contract base problem) vs CHPAsset.setup_optim_problem: exact rows over all include-flag combinations', 'unit-commitment automaton (model) vs feasibility of pinned on/off patterns in the REAL asset problem (HiGHS)']
-RULE = ('three streams: builder correspondence over all include-flag combinations (on/start variables, heat node, fuel node, ramp, initial state, parameter forms, windows, step != main unit); pattern oracle: all 2^T on/off patterns (T <= 7 quick, <= 10 thorough) pinned in the real problem vs the automaton; portfolio oracle recomputing capacity, ramps, heat share, fuel, starts from x; '
+THEOREMS = CH.THEOREMS
+PARTIAL = CH.PARTIAL
+MODELLED = CH.MODELLED
+COMPONENTS = ['CHP/Plant builder (on the real Contract base problem) vs CHPAsset.setup_optim_problem: exact rows over all include-flag combinations, incl. start/shutdown ramp profiles (with heat variants and _convert_ramp), CHPAsset_with_min_load_costs and costs_only', 'unit-commitment automaton (model) vs feasibility of pinned on/off patterns in the REAL asset problem (HiGHS)']
+RULE = ('profile cases (start-only, shutdown-only, both, heat variants, ramp_freq finer / coarser / equal) and min-load cases (threshold and costs as scalar, key, dict, array, None, negative; own windows) in the build and portfolio streams with the oracles chp.profile (k-th step after a start / before a shutdown within the k-th profile bounds) and chp.min_load (below threshold while on => flag); streams: builder correspondence over all include-flag combinations (on/start variables, heat node, fuel node, ramp, initial state, parameter forms, windows, step != main unit); pattern oracle: all 2^T on/off patterns (T <= 7 quick, <= 10 thorough) pinned in the real problem vs the automaton; portfolio oracle recomputing capacity, ramps, heat share, fuel, starts from x; '
         'non-trivial = case with on-variables or a solved portfolio; distinct by case hash')
 ASSUMPTIONS = ['pattern feasibility decided by HiGHS MILP on the real rows']
 EXPLANATION = 'rows-iff-spec and spec-iff-automaton theorems (unbounded in T) about the model of the generated rows; exact row correspondence; pattern and portfolio oracles on the real code'
